@@ -479,6 +479,35 @@ func (c *Ctx) traverseSchedules(s *Sim, helper *apisub.API, q searchQuery, sids 
 			s.mon.violate("C14", "search:traversal-does-not-end", fmt.Sprintf("schedule query %+v: more than 400 pages", q))
 			return
 		}
+		if r.Intn(3) == 0 && len(res.Schedules) > 0 {
+			// between two pages the newest schedules (everything listed so far and a few below) are deleted and one of the
+			// listed ids is created again: a new schedule, newer than everything, so it has no place on a later page
+			var rows []*vh.SRow
+			for _, row := range s.snap.S {
+				rows = append(rows, row)
+			}
+			sort.Slice(rows, func(i, j int) bool { return rows[i].SortId > rows[j].SortId })
+			lastId := res.Schedules[len(res.Schedules)-1].Id
+			cut := -1
+			for i, row := range rows {
+				if row.Id == lastId {
+					cut = i + 1 + r.Intn(3)
+				}
+			}
+			for i := 0; i < cut && i < len(rows); i++ {
+				s.Submit("other", reqDeleteSchedule(rows[i].Id))
+			}
+			s.Tick(s.now + 1)
+			s.Drain(1, 400)
+			window = append(window, s.snap)
+			again := reqCreateSchedule(lastId, "0 0 1 1 *", lastId+".{{.timestamp}}", 1000, nil, nil, "")
+			again.CreateSchedule.Tags = map[string]string{"team": "a", "x": "y"}
+			s.Submit("other", again)
+			s.Tick(s.now + 1)
+			s.Drain(1, 400)
+			window = append(window, s.snap)
+			s.mon.region("schedule-recreated-between-pages")
+		}
 	}
 	window = append(window, s.snap)
 	for id, n := range returned {
